@@ -1249,10 +1249,22 @@ def op_toksrc(case):
 
     src = case["src"]
     raw = case["raw"]
+    lined = case.get("lined", False)
+    src_lines = src.split("\n")
+
+    def line_text(ln):
+        if 1 <= ln <= len(src_lines):
+            return src_lines[ln - 1] + ("\n" if ln < len(src_lines) else "")
+        return ""
 
     def gen():
         for t in raw:
-            yield TokenInfo(Token[t["ty"]], src[t["b"]: t["e"]], (1, t["b"]), (1, t["e"]), src)
+            if not lined:
+                yield TokenInfo(Token[t["ty"]], src[t["b"]: t["e"]], (1, t["b"]), (1, t["e"]), src)
+                continue
+            line = line_text(t["ln"])
+            text = "" if t["ty"] in ("DEDENT", "ENDMARKER") or (t["ty"] == "NEWLINE" and t["s"] == "") else line[t["b"]: t["e"]]
+            yield TokenInfo(Token[t["ty"]], text, (t["ln"], t["b"]), (t["ln"], t["e"]), line)
 
     out = []
     for hist in case["histories"]:
@@ -1263,6 +1275,7 @@ def op_toksrc(case):
                 break
             op, arg = h["op"], h["arg"]
             tok, err = None, ""
+            prev_end = tk._tokens[-1].end[1] if tk._tokens else 0
             try:
                 if op == "peek":
                     tok = tk.peek()
@@ -1276,16 +1289,23 @@ def op_toksrc(case):
                     tk._proc_macro = True      # handle_proc_macro_start
                 elif op == "clearproc":
                     tk._proc_macro = False     # proc_macro_arg
+                elif op == "setwith":
+                    tk._with_macro = True      # handle_with_macro_start
+                elif op == "clearwith":
+                    tk._with_macro = False     # handle_with_macro_stmt
             except SyntaxError:
                 err, dead = "SyntaxError", True
             except BaseException as e:  # noqa: BLE001
                 err, dead = type(e).__name__, True
             o = {"op": op, "arg": arg, "index": int(tk._index), "n": len(tk._tokens), "call": bool(tk._call_macro), "proc": bool(tk._proc_macro),
-                 "stack": len(tk._stack), "err": err, "ty": "", "b": 0, "e": 0, "slice_ok": True}
+                 "with": bool(tk._with_macro), "stack": len(tk._stack), "err": err, "ty": "", "b": 0, "e": 0, "slice_ok": True}
             if tok is not None:
                 o["ty"], o["b"], o["e"] = tok.type.name, tok.start[1], tok.end[1]
                 if tok.type.name == "MACRO_PARAM":
-                    o["slice_ok"] = tok.string == src[tok.start[1]: tok.end[1]]
+                    if lined:
+                        o["text"], o["prev_end"] = tok.string, prev_end
+                    else:
+                        o["slice_ok"] = tok.string == src[tok.start[1]: tok.end[1]]
             obs.append(o)
         out.append(obs)
     return {"observations": out}
